@@ -102,6 +102,10 @@ def c14_variants(tier: str) -> List[Dict[str, Any]]:
         x["accept"] = acc(prefix, n)
         v.append(x)
     # accepted one by one: a sub-package first and its parent afterwards, and the reverse
+    # accepted functions re-exported by a non-accepted facade module and called through it
+    fx = _v("local", "local", ["split"], "facade", 1.0 if tier == "thorough" else 0.5)
+    fx["accept"] = ["vpkg"]
+    v.append(fx)
     for (lay, seq, frac) in (("split", ["vpkg.sub_f1", "vpkg"], 0.5), ("deep", ["vpkg.a.b.c", "filler_x", "vpkg.a"], 0.5),
                              ("split", ["vpkg", "vpkg.sub_f2"], 0.34)):
         x = _v("local", "local", [lay], "from", 1.0 if tier == "thorough" else frac)
@@ -157,7 +161,7 @@ FAMILY: Dict[str, Dict[str, Any]] = {
              "length 1..4 through calls / keeps / references / methods, nested dds.eval at depth 1..3) on a fresh and on a "
              "populated store, plus well-formed neighbours; non-trivial when the specification rejects the evaluation"),
     "C14": dict(
-        shapes=lambda tier: shp.boundary_shapes() + shp.core_shapes()[:2] + shp.vtype_shapes(["bool"]),
+        shapes=lambda tier: shp.boundary_shapes() + [x for x in shp.core_shapes() if x.name in ("chain", "args", "nest")] + shp.vtype_shapes(["bool"]),
         plans=lambda tier: [["eval", "edit", "eval", "revert", "eval"], ["evalB"], ["eval2", "edit", "eval2"]],
         variants=lambda tier: c14_variants(tier), oracle=oracles.c14,
         nontrivial=lambda hist: any(r["op"] == "edit" for r in hist) or any(r["op"] == "eval" and r["err"] not in ("", []) for r in hist),
